@@ -209,6 +209,21 @@ structure OState where
 
 def oLive (j : OU) : Bool := j.connected && j.clientOpen
 
+/-- `begin`: a live user with a complete command starts (or goes on) waiting -/
+def obeginU (j : OU) : OU :=
+  if oLive j && complete j.charMode j.pending then
+    (if j.waiting then j else { j with waiting := true, passed := [] })
+  else { j with waiting := false, passed := [] }
+
+/-- `cmd u text` seen by the record of user `v`: `u` itself is served; everybody who waits remembers `u` -/
+def ocmdU (u : Nat) (text : List Char) (v : Nat) (j : OU) : OU :=
+  if v == u then
+    { j with pending := (consume j.charMode j.pending text).getD j.pending, charMode := false, waiting := false, passed := [] }
+  else if j.waiting then { j with passed := u :: j.passed } else j
+
+/-- `end`: a completed iteration owes nothing any more -/
+def oendU (j : OU) : OU := { j with waiting := false, passed := [] }
+
 /-- clause `overtaken`: nobody is served a second time while somebody else, who had a complete command at the top of
     an iteration, is still waiting for his first service.  In a completed iteration this follows from `starved` and
     `twice`; the clause speaks about iterations that an uncaught error aborts: the restarted loop must go on with the
@@ -222,23 +237,13 @@ def orderStep (s : OState) (e : Ev) : OState :=
   | .drop _ t true => { s with us := upd s.us t { s.us.get t with connected := false } }
   | .gc u true => { s with us := upd s.us u { s.us.get u with charMode := true } }
   | .begin n =>
-    let us := s.ids.foldl (fun m u =>
-      let j := s.us.get u
-      if oLive j && complete j.charMode j.pending then
-        (if j.waiting then m else upd m u { j with waiting := true, passed := [] })
-      else upd m u { j with waiting := false, passed := [] }) s.us
-    { s with us := us, cyc := n }
+    { s with us := s.ids.foldl (fun m u => upd m u (obeginU (s.us.get u))) s.us, cyc := n }
   | .cmd u text =>
     let victims := s.ids.filter (fun v => v != u && (s.us.get v).waiting && oLive (s.us.get v) && (s.us.get v).passed.contains u)
-    let us1 := s.ids.foldl (fun m v =>
-      let j := s.us.get v
-      if v == u then
-        upd m v { j with pending := (consume j.charMode j.pending text).getD j.pending, charMode := false,
-                         waiting := false, passed := [] }
-      else if j.waiting then upd m v { j with passed := u :: j.passed } else m) s.us
-    { s with us := us1, bad := victims.reverse.map (fun v => Viol.overtaken u v s.cyc) ++ s.bad }
+    { s with us := s.ids.foldl (fun m v => upd m v (ocmdU u text v (s.us.get v))) s.us,
+             bad := victims.reverse.map (fun v => Viol.overtaken u v s.cyc) ++ s.bad }
   | .endc _ _ _ =>   -- a completed iteration owes nothing any more (clause `starved` has judged it)
-    { s with us := s.ids.foldl (fun m u => upd m u { s.us.get u with waiting := false, passed := [] }) s.us }
+    { s with us := s.ids.foldl (fun m u => upd m u (oendU (s.us.get u))) s.us }
   | _ => s
 
 def judgeOrder (trace : List Ev) : List Viol := (trace.foldl orderStep {}).bad.reverse
